@@ -34,7 +34,7 @@ ASSUMPTIONS = [
     "documented errors = the exception classes of pyoak.legacy.error; an operation that raises anything else gives no verdict (counted)",
     "operations expected to be rejected that are accepted give no verdict (counted) and join the history",
 ]
-MUST_SEE = ["adopted_children_checked", "runtime_only_child_field_transform", "rule_replaces_children_of_its_copy", "receiver_below_falsy_parent", 
+MUST_SEE = ["replace_with_own_child", "adopted_children_checked", "runtime_only_child_field_transform", "rule_replaces_children_of_its_copy", "receiver_below_falsy_parent", 
     "rejected_ASTNodeDuplicateChildrenError", "rejected_ASTNodeParentCollisionError", "rejected_ASTNodeIDCollisionError", "rejected_ASTNodeRegistryCollisionError",
     "rejected_ASTNodeReplaceError", "rejected_ASTNodeReplaceWithError", "rejected_ASTTransformError", "failing_element_not_first", "frames_compared", "nested_failing_element", "two_collided_children",
 ]
@@ -108,8 +108,8 @@ def run_shard(ctx):
             kind = rng.choices(
                 ["dup_seq", "dup_two_fields", "parent_collision", "parent_collision_nested", "id_collision", "attach_collision", "attach_collision_nested",
                  "replace_keys", "replace_dup", "replace_parent_collision", "rw_has_parent", "rw_wrong_class", "rw_none_required", "rw_attach_fails",
-                 "transform_raises", "transform_removes_required", "transformer_raises", "rw_clone_of_attached", "parent_collision_two", "transform_runtime_children"],
-                [3, 3, 1, 1, 3, 3, 1, 3, 1, 1, 3, 3, 3, 1, 3, 3, 3, 2, 2, 2 if f"{P}Seq" in U.cls else 0],
+                 "transform_raises", "transform_removes_required", "transformer_raises", "rw_clone_of_attached", "parent_collision_two", "transform_runtime_children", "rw_own_child"],
+                [3, 3, 1, 1, 3, 3, 1, 3, 1, 1, 3, 3, 3, 1, 3, 3, 3, 2, 2, 2 if f"{P}Seq" in U.cls else 0, 2],
             )[0]
             where = rng.choice(["first", "middle", "last"])
             if kind == "dup_seq":
@@ -224,6 +224,15 @@ def run_shard(ctx):
                 if x is None or x is n:
                     return None
                 return ("replace_with", "first", n, [x], lambda: n.replace_with(x))
+            if kind == "rw_own_child":
+                # hoisting a node's own child into its place: the child has a parent (the receiver), so this is refused;
+                # here the receiver's own slot would not even accept the child's class
+                inner = U.cls[f"{P}Un"](child=leaf(), origin=NO)
+                wrap = U.cls[f"{P}Wrap"](inner=inner, v=R.counter + 60000, origin=NO)
+                holder = U.cls[f"{P}Lst"](elems=[leaf()], opt=wrap, origin=NO) if rng.random() < 0.6 else U.cls[f"{P}List"](items=(leaf(), wrap), origin=NO)
+                F.add(holder)
+                ctx.count("replace_with_own_child")
+                return ("replace_with", "first", wrap, [inner], lambda: wrap.replace_with(inner))
             if kind == "rw_wrong_class":
                 c = [n for n in F.handles if not n.detached and n.parent is not None and n.parent_field.name == "opt"]
                 if not c:
